@@ -106,13 +106,42 @@ def strip_comments(src):
     return src
 
 
-def forbidden_scan():
+def import_closure(modules):
+    """PbVerif modules transitively imported by the given modules (the files a property's theorems depend on)."""
+    seen, todo = set(), list(modules)
+    while todo:
+        m = todo.pop()
+        if m in seen or not m.startswith('PbVerif'):
+            continue
+        path = os.path.join(LEAN, *m.split('.')) + '.lean'
+        if not os.path.exists(path):
+            continue
+        seen.add(m)
+        for line in open(path, encoding='utf8'):
+            mm = re.match(r'\s*(?:public\s+)?import\s+(PbVerif[\w.]*)', line)
+            if mm:
+                todo.append(mm.group(1))
+    return sorted(seen)
+
+
+def forbidden_scan(modules):
     hits = []
-    for path in glob.glob(os.path.join(LEAN, 'PbVerif', '**', '*.lean'), recursive=True):
+    for m in import_closure(modules):
+        path = os.path.join(LEAN, *m.split('.')) + '.lean' 
         code = strip_comments(open(path, encoding='utf8').read())
         for m in FORBIDDEN.finditer(code):
             hits.append('%s: %s' % (os.path.relpath(path, LEAN), m.group(0).strip()))
     return hits
+
+
+def exe_roots(exe):
+    """root module of a lean_exe target, from lakefile.toml"""
+    try:
+        txt = open(os.path.join(LEAN, 'lakefile.toml')).read()
+    except OSError:
+        return []
+    m = re.search(r'name\s*=\s*"%s"\s*\nroot\s*=\s*"([^"]+)"' % re.escape(exe), txt)
+    return [m.group(1)] if m else []
 
 
 def lake_build(targets, timeout=3000):
@@ -282,7 +311,7 @@ def main(argv):
         else:
             for t in allnames:
                 audit[t] = {'axioms': [], 'ok': False, 'why': 'module does not build'}
-        hits = forbidden_scan()
+        hits = forbidden_scan(targets + ([] if not exe else exe_roots(exe)))
         if hits:
             broken.append('prove: forbidden construct in Lean sources: ' + '; '.join(hits[:5]))
         if a.tier == 'thorough' and lean_ok and cfg.get('leanchecker', True):
@@ -316,6 +345,13 @@ def main(argv):
             cmd += cfg.get('harness_args', [])
             tmo = cfg.get('timeout_' + a.tier, 900 if a.tier == 'quick' else 7200)
             henv = dict(GOENV, GOMEMLIMIT='8GiB', VERIF_DIR=VERIF, VERIF_REPO=REPO, VERIF_WORK=WORK)
+            if cfg.get('peer_tags'):
+                # a second build of the same harness with extra tags (e.g. protoreflect), run by the harness as a peer process
+                pb, pout = build_harness(cfg['harness'], cfg['peer_tags'])
+                if pb is None:
+                    broken.append('correspond: peer harness (-tags %s) does not compile: %s' % (cfg['peer_tags'], pout[-400:]))
+                else:
+                    henv['VERIF_PEER_BIN'] = pb
             rc, out, dt = run(cmd, cwd=REPO, env=henv, timeout=tmo)
             stage['harness'] = round(dt, 2)
             if os.path.exists(resf):
